@@ -253,10 +253,14 @@ func (ex *Exec) protoMethod(recv iface, name string) *modelClosure {
 				f := fd.v.(protoFieldV)
 				if f.holder == nil {
 					// an ordinary field of this message: the struct cell itself (message pointer or slice of them)
-					if m.ptr == nil || f.st != m.st {
-						panic(ex.unsupported("protoreflect Get of a field of another (or a nil) message"))
+					if f.st != m.st {
+						panic(ex.unsupported("protoreflect Get of a field of another message"))
 					}
 					mst := m.st.Underlying().(*types.Struct)
+					if m.ptr == nil {
+						// a nil message reads as the empty one: the default of the field (nil message, empty list, zero)
+						return iface{pmValueT, protoValueV{v: ex.zero(mst.Field(f.idx).Type()), t: mst.Field(f.idx).Type()}}
+					}
 					return iface{pmValueT, protoValueV{v: (*m.ptr).(structure)[f.idx], t: mst.Field(f.idx).Type()}}
 				}
 				// the member of a oneof: the single field of the wrapper struct
